@@ -95,6 +95,11 @@ def sym_send(inp, part):
         k0, v0, w0 = w.feed(M.line(0, 255, 3, 0, 2, v))
         if k0 != "msg" or w0:
             raise Violation("version-report-disturbed", "version report before the wake gave %s, writes %r" % (k0, w0))
+    if inp.bool("destination_represents_before_wake"):
+        # the destination reboots and presents itself again (its registry entry is re-created) before it wakes
+        k1, v1, w1 = w.feed(M.line(n, 255, 0, 0, 17, "2.0"))
+        if k1 != "msg":
+            raise Violation("re-presentation-failed:%s" % type(v1).__name__, str(v1)[:150])
     wake = (n, 255, 3, 0, 32, "") if v == "2.2" else (n, 255, 3, 0, 22, "10")
     kind, val, writes = w.feed(M.line(*wake))
     if kind != "msg":
